@@ -150,6 +150,10 @@ def judge(pid, res, known):
     viol, kf = [], {}
     for b in res['bad']:
         for t in b['tags']:
+            if t == 'C10.NoPanic' and pid != 'C10':
+                # the client killed the process (panic in one of its goroutines, fatal runtime error): every call that was
+                # pending never returned and nothing is delivered any more - no tunnel property survives that
+                t = pre + 'ClientCrashed'
             if not t.startswith(pre):
                 continue
             if t in listed:
